@@ -299,6 +299,8 @@ pub struct FnGenCfg {
     /// leading `unsafe` is a known finding for single fns (F1) until fixed
     pub allow_leading_unsafe: bool,
     pub rich_syntax: bool,
+    /// opaque token-soup bodies (E1 token properties) vs. bodies every parser accepts
+    pub soup_bodies: bool,
 }
 
 /// A syntactically rich fn that the macro should accept. Returns the fn and its deps form.
@@ -340,7 +342,8 @@ pub fn gen_fn(t: &mut Tape, name: &str, vis: String, cfg: &FnGenCfg) -> (FnSrc, 
             let b = if bounds.is_empty() { "::core::any::Any".to_string() } else { bounds.join(" + ") };
             if amp.is_empty() {
                 params.push(format!("deps: impl {b}"));
-            } else if t.chance(1, 4) {
+            } else if bounds.len() >= 2 || t.chance(1, 4) {
+                // `&impl A + B` is ambiguous (rejected by rustc); parenthesise
                 params.push(format!("deps: &(impl {b})"));
             } else {
                 params.push(format!("deps: &impl {b}"));
@@ -388,7 +391,7 @@ pub fn gen_fn(t: &mut Tape, name: &str, vis: String, cfg: &FnGenCfg) -> (FnSrc, 
         params,
         ret,
         where_: g.where_src(),
-        body: gen_body(t),
+        body: if cfg.soup_bodies { gen_body(t) } else { "{}".to_string() },
     };
     (f, form)
 }
@@ -520,4 +523,251 @@ pub fn gen_mod_item(t: &mut Tape, i: usize, cfg: &FnGenCfg) -> ModItemSrc {
         }
         _ => gen_other_item(t, i),
     }
+}
+
+// ---------- traits ----------
+
+#[derive(Clone, Debug)]
+pub struct TraitMethodSrc {
+    pub attrs: Vec<String>,
+    pub quals: String,
+    pub name: String,
+    pub generics: String,
+    pub receiver: String,
+    pub params: Vec<String>,
+    pub ret: String,
+    pub where_: String,
+    /// None => `;`
+    pub body: Option<String>,
+}
+
+impl TraitMethodSrc {
+    pub fn render(&self) -> String {
+        let mut s = String::new();
+        for a in &self.attrs {
+            s.push_str(a);
+            if !a.ends_with('\n') {
+                s.push(' ');
+            }
+        }
+        s.push_str(&self.quals);
+        s.push_str("fn ");
+        s.push_str(&self.name);
+        s.push_str(&self.generics);
+        s.push('(');
+        let mut ps = vec![];
+        if !self.receiver.is_empty() {
+            ps.push(self.receiver.clone());
+        }
+        ps.extend(self.params.iter().cloned());
+        s.push_str(&ps.join(", "));
+        s.push(')');
+        s.push_str(&self.ret);
+        s.push_str(&self.where_);
+        match &self.body {
+            None => s.push(';'),
+            Some(b) => {
+                s.push(' ');
+                s.push_str(b);
+            }
+        }
+        s
+    }
+}
+
+#[derive(Clone, Debug)]
+pub enum TraitItemSrc {
+    Method(TraitMethodSrc),
+    AssocType(String),
+    Other(String),
+}
+
+#[derive(Clone, Debug)]
+pub struct TraitSrc {
+    pub attrs: Vec<String>,
+    pub vis: String,
+    pub unsafety: bool,
+    pub name: String,
+    pub generics: String,
+    pub supertraits: String,
+    pub where_: String,
+    pub items: Vec<TraitItemSrc>,
+}
+
+impl TraitSrc {
+    pub fn render(&self) -> String {
+        let mut s = String::new();
+        for a in &self.attrs {
+            s.push_str(a);
+            if !a.ends_with('\n') {
+                s.push(' ');
+            }
+        }
+        if !self.vis.is_empty() {
+            s.push_str(&self.vis);
+            s.push(' ');
+        }
+        if self.unsafety {
+            s.push_str("unsafe ");
+        }
+        s.push_str("trait ");
+        s.push_str(&self.name);
+        s.push_str(&self.generics);
+        s.push_str(&self.supertraits);
+        s.push_str(&self.where_);
+        s.push_str(" {\n");
+        for it in &self.items {
+            match it {
+                TraitItemSrc::Method(m) => s.push_str(&m.render()),
+                TraitItemSrc::AssocType(x) | TraitItemSrc::Other(x) => s.push_str(x),
+            }
+            s.push('\n');
+        }
+        s.push('}');
+        s
+    }
+    pub fn has_async(&self) -> bool {
+        self.items.iter().any(|i| matches!(i, TraitItemSrc::Method(m) if m.quals.contains("async")))
+    }
+}
+
+pub struct TraitGenCfg {
+    /// only `&self` receivers (the documented domain) vs. every receiver shape incl. none
+    pub ref_self_only: bool,
+    /// non-ident parameter patterns (`_`, destructuring) — F6 while open
+    pub patterns: bool,
+    pub default_bodies: bool,
+    pub assoc_types: bool,
+    pub other_items: bool,
+    pub unsafety: bool,
+    pub trait_attrs: bool,
+    pub method_attrs: bool,
+    pub generics: bool,
+    pub async_methods: bool,
+}
+
+pub fn gen_trait(t: &mut Tape, name: &str, cfg: &TraitGenCfg) -> TraitSrc {
+    let mut generics = String::new();
+    let mut where_ = String::new();
+    let mut supertraits = String::new();
+    if cfg.generics {
+        match t.weighted(&[6, 2, 1, 1]) {
+            0 => {}
+            1 => generics = "<U>".into(),
+            2 => {
+                generics = "<U: Clone, const K: usize>".into();
+            }
+            _ => {
+                generics = "<'t, U>".into();
+                where_ = " where U: 't + Send".into();
+            }
+        }
+        match t.weighted(&[6, 2, 1, 1]) {
+            0 => {}
+            1 => supertraits = ": Send".into(),
+            2 => supertraits = ": Sup + 'static".into(),
+            _ => supertraits = ": a::Sup<i32> + Sync".into(),
+        }
+        if where_.is_empty() && t.chance(1, 6) {
+            where_ = " where Self: Sized".into();
+        }
+    }
+    let n = t.weighted(&[1, 4, 3, 2, 1, 1]);
+    let mut items = vec![];
+    let mut counter = 0usize;
+    for i in 0..n {
+        let kind = t.weighted(&[10, if cfg.assoc_types { 2 } else { 0 }, if cfg.other_items { 1 } else { 0 }]);
+        match kind {
+            0 => {
+                let mut fresh = || {
+                    counter += 1;
+                    format!("p{counter}")
+                };
+                let receiver = if cfg.ref_self_only {
+                    "&self".to_string()
+                } else {
+                    (*t.pick(&["&self", "&self", "&self", "&mut self", "self", "self: Box<Self>", "&'t self", "", "mut self", "self: &Self"])).to_string()
+                };
+                let np = t.weighted(&[3, 4, 2, 1, 1]);
+                let mut params = vec![];
+                for _ in 0..np {
+                    let pat = if cfg.patterns { gen_pat(t, &mut fresh).src } else { fresh() };
+                    let ty = gen_type(t, 1);
+                    let attr = if cfg.method_attrs && t.chance(1, 10) { "#[mk_param] " } else { "" };
+                    params.push(format!("{attr}{pat}: {ty}"));
+                }
+                let quals = if cfg.async_methods && t.chance(1, 4) {
+                    "async ".to_string()
+                } else if !cfg.ref_self_only && t.chance(1, 12) {
+                    "unsafe ".to_string()
+                } else {
+                    String::new()
+                };
+                let ret = match t.weighted(&[3, 4, 1]) {
+                    0 => String::new(),
+                    1 => format!(" -> {}", gen_type(t, 1)),
+                    _ => " -> &str".to_string(),
+                };
+                let mgen = if cfg.generics && t.chance(1, 6) { "<V: Clone>".to_string() } else { String::new() };
+                let mwhere = if cfg.generics && t.chance(1, 10) { " where Self: Sized".to_string() } else { String::new() };
+                let body = if cfg.default_bodies && t.chance(1, 5) { Some("{ unimplemented!() }".to_string()) } else { None };
+                items.push(TraitItemSrc::Method(TraitMethodSrc {
+                    attrs: if cfg.method_attrs { gen_attrs(t, 2) } else { vec![] },
+                    quals,
+                    name: format!("m{i}"),
+                    generics: mgen,
+                    receiver,
+                    params,
+                    ret,
+                    where_: mwhere,
+                    body,
+                }));
+            }
+            1 => {
+                let x = match t.choose(3) {
+                    0 => format!("type Assoc{i};"),
+                    1 => format!("type Assoc{i}: Clone + Send;"),
+                    _ => format!("/// doc\n type Assoc{i}<'q> where Self: 'q;"),
+                };
+                items.push(TraitItemSrc::AssocType(x));
+            }
+            _ => {
+                let x = match t.choose(3) {
+                    0 => format!("const K{i}: usize;"),
+                    1 => format!("const K{i}: usize = 3;"),
+                    _ => format!("mk_items!{{ fn inside{i}(&self); }}"),
+                };
+                items.push(TraitItemSrc::Other(x));
+            }
+        }
+    }
+    TraitSrc {
+        attrs: if cfg.trait_attrs { gen_attrs(t, 3) } else { vec![] },
+        vis: gen_vis(t),
+        unsafety: cfg.unsafety && t.chance(1, 8),
+        name: name.to_string(),
+        generics,
+        supertraits,
+        where_,
+        items,
+    }
+}
+
+/// Valid trait-mode attribute arguments.
+pub fn gen_trait_attr(t: &mut Tape) -> String {
+    let head = match t.weighted(&[5, 2, 2, 1, 1, 1]) {
+        0 => vec![],
+        1 => vec!["delegate_by = ref".to_string()],
+        2 => vec!["TraitImpl".to_string(), "delegate_by = DelegateTrait".to_string()],
+        3 => vec!["pub TraitImpl".to_string(), "delegate_by = ref".to_string()],
+        4 => vec!["delegate_by = Borrow".to_string()],
+        _ => vec!["delegate_by = Self".to_string()],
+    };
+    let mut parts = head;
+    let pool = ["?Send", "mock_api = TraitMock", "unimock", "unimock = false", "unimock = true", "mockall", "mockall = false"];
+    let n = t.weighted(&[5, 3, 2, 1]);
+    for _ in 0..n {
+        parts.push((*t.pick(&pool)).to_string());
+    }
+    parts.join(", ")
 }
